@@ -262,16 +262,73 @@ def rule_r4(rep, repo):
             repo.rel("becke", lc), [f"sibling loop at {repo.rel('becke', la)}"])
 
 
+def rule_r5(rep, repo):
+    """Hirshfeld: every pro-atom enters the pro-molecule, each atom's own segment takes its own
+    pro-atom, and the division by the pro-molecule happens once, after the loop (value graphs)."""
+    from gridlint.props.c07 import _loop_graph
+    f = repo.method("HirshfeldWeights", "__call__")
+    body = strip_docstring(f.node.body)
+    loop = next((s for s in body if isinstance(s, ast.For)), None)
+    if loop is None or not norm(loop.iter).startswith("enumerate(atnums"):
+        raise AnalysisError("unrecognised idiom: HirshfeldWeights.__call__ has no loop over enumerate(atnums)")
+    vg, pre = _loop_graph(repo, "HirshfeldWeights", f, loop, ["I", "Z"])
+    I, Z = ("sym", "I"), ("sym", "Z")
+    I1 = e5.mk_ac("+", [I, ("const", "1")])
+    pts, atc, ind = (("sym", p) for p in (f.params[1], f.params[2], f.params[4]))
+    where = repo.rel("hirshfeld", loop)
+    cons = "hirshfeld.HirshfeldWeights.__call__"
+    # the pro-atom of this iteration
+    pro = None
+    for k, v in vg.env.items():
+        if isinstance(v, tuple) and v and v[0] == "call" and "generate_proatom" in e5.show(v[1]) and k not in pre:
+            pro = v
+    if pro is None:
+        raise AnalysisError("unrecognised idiom: no pro-atom density in the Hirshfeld loop")
+    want_pro_args = (pts, ("sub", atc, I), Z)
+    checks = {}
+    checks["proatom-of-this-atom"] = pro[2] == want_pro_args
+    # accumulators: names defined before the loop and changed in it
+    changed = {k: v for k, v in vg.env.items() if k in pre and v != pre[k] and k not in (f.params)}
+    acc = [k for k, v in changed.items() if v == e5.mk_ac("+", [pre[k], pro])]
+    seg = [k for k, v in changed.items() if isinstance(v, tuple) and v[0] == "setitem"]
+    checks["promolecule-accumulates-every-proatom"] = len(acc) == 1
+    okseg = False
+    if len(seg) == 1:
+        g = vg.env[seg[0]]
+        sl = ("slice", ("sub", ind, I), ("sub", ind, I1), None)
+        okseg = g[2] == sl and g[3] == ("sub", pro, sl)
+    checks["own-segment-takes-own-proatom"] = okseg
+    # after the loop: one division of the segment array by the accumulator
+    post = e5.VG(repo, "HirshfeldWeights", f.node, inline=False)
+    if acc and seg:
+        post.env[acc[0]] = ("sym", "PROMOL")
+        post.env[seg[0]] = ("sym", "NUM")
+        for s in body:
+            if getattr(s, "lineno", 0) > loop.end_lineno:
+                post.stmt(s)
+        checks["normalised-once-after-the-loop"] = post.ret == e5.mk_ac("*", [("sym", "NUM"), ("inv", ("sym", "PROMOL"))])
+    else:
+        checks["normalised-once-after-the-loop"] = False
+    for k, okk in checks.items():
+        if okk:
+            rep.ok("R5.hirshfeld-share", f"HirshfeldWeights.__call__:{k}", where, "")
+        else:
+            rep.violation("R5.hirshfeld-share", cons, k,
+                          f"the Hirshfeld weight is no longer pro-atom / pro-molecule on each atom's own segment: "
+                          f"obligation `{k}` is not met", where)
+
+
 def run(tier="quick", root="/repo", evidence_dir=None, quiet=False):
     rep = Report(PROP, tier, root, EXPLANATION, RULE, assumptions=[
-        "equal normalised value graphs over the same inputs imply bit-identical floating-point results "
-        "(operands are only re-ordered for commutative elementwise + and *, which NumPy evaluates "
-        "pairwise in source order; re-association is NOT normalised away)",
+        "equal normalised value graphs over the same inputs imply equal results up to the rounding of "
+        "re-associated/re-ordered elementwise + and * (the normaliser flattens and sorts them); every "
+        "other operation is compared exactly",
     ])
     repo = get_repo(root)
     rule_r1(rep, repo)
     rule_r2(rep, repo)
     rule_r3(rep, repo)
     rule_r4(rep, repo)
-    rep.extra["source_digest"] = repo.digest(["becke"])
+    rule_r5(rep, repo)
+    rep.extra["source_digest"] = repo.digest(["becke", "hirshfeld"])
     return rep.finish(evidence_dir=evidence_dir, quiet=quiet)
